@@ -209,6 +209,40 @@ def obligations(ctx):
             out.append(_v(f"G:determinism:{cat}", True, "htmltools", f"{notes[cat]}: {len(reach)} reachable functions scanned, none flagged"))
         for q, line, why in findings[cat]:
             out.append(_v(f"G:determinism:{cat}:{q.replace('htmltools.', '')}:L{line}", False, f"{q} line {line}", f"{why} - {notes[cat]}"))
+    # class-level mutable attributes (shared by every instance) that methods mutate through self
+    for m in MODULES:
+        try:
+            mod = src.module(m)
+        except Exception:
+            continue
+        for cls in [n for n in mod.body if isinstance(n, ast.ClassDef)]:
+            shared = set()
+            for n in cls.body:
+                tgt = val = None
+                if isinstance(n, ast.Assign) and len(n.targets) == 1 and isinstance(n.targets[0], ast.Name):
+                    tgt, val = n.targets[0].id, n.value
+                elif isinstance(n, ast.AnnAssign) and isinstance(n.target, ast.Name) and n.value is not None:
+                    tgt, val = n.target.id, n.value
+                if tgt and (isinstance(val, (ast.List, ast.Dict, ast.Set, ast.ListComp, ast.DictComp, ast.SetComp)) or
+                            isinstance(val, ast.Call) and isinstance(val.func, ast.Name) and val.func.id in ("list", "dict", "set", "defaultdict")):
+                    shared.add(tgt)
+            for k in cls.body:
+                if not isinstance(k, (ast.FunctionDef, ast.AsyncFunctionDef)) or not shared:
+                    continue
+                for n in ast.walk(k):
+                    hit = None
+                    if isinstance(n, ast.Call) and isinstance(n.func, ast.Attribute) and n.func.attr in ("append", "extend", "insert", "add", "update", "setdefault", "pop", "clear", "remove") \
+                            and isinstance(n.func.value, ast.Attribute) and isinstance(n.func.value.value, ast.Name) and n.func.value.value.id in ("self", "cls", cls.name) and n.func.value.attr in shared:
+                        hit = n.func.value.attr
+                    if isinstance(n, (ast.Assign, ast.AugAssign)):
+                        for t in (n.targets if isinstance(n, ast.Assign) else [n.target]):
+                            if isinstance(t, ast.Subscript) and isinstance(t.value, ast.Attribute) and isinstance(t.value.value, ast.Name) and t.value.value.id in ("self", "cls", cls.name) and t.value.attr in shared:
+                                hit = t.value.attr
+                    if hit:
+                        q = f"{m}.{cls.name}.{k.name}"
+                        findings["module-state"].append((q, n.lineno, f"mutates the class-level container `{cls.name}.{hit}` (shared by all instances: history-dependent)"))
+    for q, line, why in [x for x in findings["module-state"] if "class-level container" in x[2]]:
+        out.append(_v(f"G:determinism:module-state:{q.replace('htmltools.', '')}:L{line}", False, f"{q} line {line}", why))
     # the single mutable module global
     try:
         init = src.module("htmltools")
